@@ -266,6 +266,15 @@ func (f *Flooder) HandleRouteAdvertise(
 		}
 	}
 
+	// A path that already passes through us is a loop even when the seen-by list
+	// does not say so: full-table replays (SendFullTable) restart the seen-by list
+	// at the replaying agent but keep the recorded path. Such a route can never be
+	// stored here, and forwarding it would hand our neighbours a path that visits
+	// us twice.
+	if containsAgent(path, f.localID) {
+		return false
+	}
+
 	// Convert protocol routes to routing entries (CIDR, domain, forward, and agent)
 	cidrEntries := make([]routing.RouteEntry, 0, len(routes))
 	domainEntries := make([]routing.DomainRouteEntry, 0)
